@@ -194,10 +194,53 @@ def shard_a(member, acc):
         # (b) override specifiers of this seed and their single mutations
         tpaths = type_paths(events)
         fresh_path = bool(tpaths - covered_paths)
+        if fresh_path or n <= 2:
+            # (a2) every schema identifier in every line role, at every line position of this seed
+            for lab, t in role_line_insertions(S, text):
+                if t not in seen:
+                    seen.add(t)
+                    check_text(sch, t, acc, {"member": mid, "seed": text, "mutation": lab}, base)
+                    acc.transitions += 1
+                    acc.extra["role_line_insertions"] += 1
         if tpaths and (fresh_path or n <= (4 if tier == "quick" else 40)):
             covered_paths |= tpaths
             overrides_of_seed(S, sch, mid, events, text, acc, tier)
     return acc
+
+
+def role_lines(S):
+    """Every identifier of the schema (key names, section-slot names, attribute names, type names - abstract ones
+    included) in every syntactic role of a configuration line: as a key, as a section type, as a section name
+    under every concrete type, as a closer."""
+    names = []
+    types = []
+    for t in S.types:
+        types.append(t.name)
+        names.append(t.name)
+    conts = [S.items] + [t.items for t in S.types if isinstance(t, M.SType)]
+    for items in conts:
+        for it in items:
+            for n in (it.name, getattr(it, "attribute", None)):
+                if n and n not in ("*", "+"):
+                    names.append(n)
+    names = sorted(set(names))
+    out = []
+    for n in names:
+        out += ["%s v" % n, "%s" % n, "%s 7" % n.upper(), "<%s>" % n, "<%s/>" % n, "</%s>" % n, "<%s x/>" % n]
+        for t in types:
+            out.append("<%s %s/>" % (t, n))
+            out.append("<%s %s>" % (t, n))
+    seen = set()
+    return [l for l in out if not (l in seen or seen.add(l))]
+
+
+def role_line_insertions(S, text):
+    lines = text.split("\n")
+    if lines and lines[-1] == "":
+        lines = lines[:-1]
+    for i in range(len(lines) + 1):
+        for j in role_lines(S):
+            yield "ins-role-line", "\n".join(lines[:i] + [j] + lines[i:]) + "\n"
 
 
 def type_paths(events):
@@ -385,8 +428,21 @@ def graph_files(bits, inside):
     return files
 
 
-def has_cycle(bits):
-    # reachable from file 0 only matters
+def load_anonymous(sch, files, toptext):
+    import io
+    import ZConfig
+    try:
+        ld = H.mem_loader(sch, files, ())
+        cfg, h = ld.loadFile(io.StringIO(toptext))
+        return ("ok", cfg, h)
+    except ZConfig.ConfigurationError as e:
+        return ("rejected", e, None)
+    except Exception as e:
+        return ("internal", e, None)
+
+
+def has_cycle(bits, start=0):
+    # only what is reachable from the start file matters
     color = {}
 
     def dfs(u):
@@ -399,7 +455,7 @@ def has_cycle(bits):
                     return True
         color[u] = 2
         return False
-    return dfs(0)
+    return dfs(start)
 
 
 def shard_c(arg, acc):
@@ -418,6 +474,30 @@ def shard_c(arg, acc):
         acc.cls("graph-%s-%s" % ("cyclic" if cyc else "acyclic", classify(r).split(":")[0]))
         acc.sample(lambda: {"graph": bits, "inside_section": inside, "outcome": classify(r)})
         case = {"files": files, "graph": bits, "inside_section": inside}
+        # the same graph entered from a top-level text that has NO URL of its own (loadConfigFile on a
+        # nameless stream) and reaches the files through absolute URLs
+        for entry in ((0,), (1,), (0, 1), (2, 0)):
+            top = "m top\n" + "".join("%%include %s\n" % URLS[i] for i in entry)
+            if inside:
+                top = "m top\n<s>\n" + "".join("  %%include %s\n" % URLS[i] for i in entry) + "</s>\n"
+            r2 = load_anonymous(sch, files, top)
+            acc.ev()
+            acc.transitions += 1
+            acc.nt()
+            cyc2 = any(has_cycle(bits, i) for i in entry)
+            acc.cls("graph-anon-%s-%s" % ("cyclic" if cyc2 else "acyclic", classify(r2).split(":")[0]))
+            case2 = dict(case, anonymous_top=top)
+            if r2[0] == "internal":
+                d = core.exc_desc(r2[1])
+                acc.violation("internal-error-escapes", case2, d, "ZConfig.ConfigurationError family",
+                              tags={"kind": "internal-error", "exc": d["class"], "input": "include-graph",
+                                    "cyclic": cyc2, "top": "anonymous"})
+            elif cyc2 and r2[0] == "ok":
+                acc.violation("cyclic-include-accepted", case2, "accepted", "rejected",
+                              tags={"kind": "cycle-accepted", "top": "anonymous"})
+            elif not cyc2 and r2[0] != "ok" and not inside:
+                acc.violation("acyclic-include-graph-rejected", case2, str(r2[1])[:200], "accepted",
+                              tags={"kind": "acyclic-rejected", "top": "anonymous"})
         if r[0] == "internal":
             d = core.exc_desc(r[1])
             acc.violation("internal-error-escapes", case, d, "ZConfig.ConfigurationError family",
@@ -585,6 +665,9 @@ def run(tier):
     a.traces = a.transitions
     run.require(a.classes.get("rejected", 0) > 1000 and a.classes.get("accepted", 0) > 1000, "few mutated texts")
     run.require(a.classes.get("override-rejected", 0) > 100, "few override mutations")
+    run.require(a.extra.get("role_line_insertions", 0) > 10000, "role-line insertions hardly exercised")
+    run.require(a.classes.get("graph-anon-cyclic-rejected", 0) > 100 and a.classes.get("graph-anon-acyclic-accepted", 0) > 100,
+                "anonymous entry into include graphs hardly exercised")
     run.require(a.classes.get("deep-override-rejected:DataConversionError", 0) > 1000
                 and a.classes.get("deep-override-accepted", 0) > 1000, "deep override sweep hardly converts anything")
     run.require(a.classes.get("validator-status-1", 0) > 10 and a.classes.get("validator-status-0", 0) > 5,
@@ -596,7 +679,10 @@ def replay(body):
     case = body["case"]
     rc = 0
     for _ in range(2):
-        if "graph" in case:
+        if "anonymous_top" in case:
+            sch = H.load_schema(GRAPH_SCHEMA)
+            r = load_anonymous(sch, case["files"], case["anonymous_top"])
+        elif "graph" in case:
             sch = H.load_schema(GRAPH_SCHEMA)
             r = H.load_mem(sch, case["files"], URLS[0])
         elif "directive_argument" in case:
